@@ -45,6 +45,8 @@ struct Sys {
     born: HashSet<u64>,
     lifetime_stack: Vec<(u64, bool)>,
     map_lost: bool,
+    /// host spans whose guest span lost its last handle while still entered in this lifetime
+    orphaned: HashSet<u64>,
 }
 
 impl Sys {
@@ -60,6 +62,7 @@ impl Sys {
             spec: Spec::default(),
             spec_persisted: Spec::default(),
             has_host: HashMap::new(),
+            orphaned: HashSet::new(),
             presented: HashSet::new(),
             born: HashSet::new(),
             lifetime_stack: vec![],
@@ -359,6 +362,9 @@ pub fn run_lines(lines: &[String], oracles: bool) -> RunResult {
                         let last = sys.spec.alive.get(g).map_or(false, |r| r.rc == 1);
                         match (last, sys.has_host.get(g).copied()) {
                             (true, Some(h)) => {
+                                if sys.spec.entered.get(g).copied().unwrap_or(0) > 0 {
+                                    sys.orphaned.insert(h);
+                                }
                                 if closes != vec![h] {
                                     fail!("C08 last handle of guest span {g} dropped: expected exactly one close of h{h}, host saw closes {closes:?}");
                                 }
@@ -419,8 +425,14 @@ pub fn run_lines(lines: &[String], oracles: bool) -> RunResult {
                         // C04: context restored, nothing closed
                         let stack_now = sys.host.state.lock().unwrap().stack.clone();
                         if stack_now != sys.lifetime_stack {
-                            fail!("C04 after persist the host span stack is {:?}, it was {:?} before this receiver processed anything ({} enters outstanding)", stack_now, sys.lifetime_stack, entered_now);
+                            let rest: Vec<(u64, bool)> = stack_now.iter().filter(|e| !sys.orphaned.contains(&e.0)).copied().collect();
+                            if rest == sys.lifetime_stack {
+                                fail!("C04 after persist host span(s) {:?} are still entered: the guest dropped their last handle while they were entered, and the receiver forgot that it had entered them [last-handle-dropped-while-entered]", sys.orphaned);
+                            } else {
+                                fail!("C04 after persist the host span stack is {:?}, it was {:?} before this receiver processed anything ({} enters outstanding)", stack_now, sys.lifetime_stack, entered_now);
+                            }
                         }
+                        sys.orphaned.clear();
                         let closes: Vec<u64> = sys.host.state.lock().unwrap().closes[closes_before..].to_vec();
                         if !closes.is_empty() {
                             fail!("C04 persist closed host spans {closes:?}");
@@ -497,8 +509,14 @@ pub fn run_lines(lines: &[String], oracles: bool) -> RunResult {
                         rr.out.obs.push(sk);
                         let stack_now = sys.host.state.lock().unwrap().stack.clone();
                         if stack_now != sys.lifetime_stack {
-                            fail!("C04 after drop the host span stack is {:?}, it was {:?} before this receiver processed anything ({} enters outstanding)", stack_now, sys.lifetime_stack, entered_now);
+                            let rest: Vec<(u64, bool)> = stack_now.iter().filter(|e| !sys.orphaned.contains(&e.0)).copied().collect();
+                            if rest == sys.lifetime_stack {
+                                fail!("C04 after drop host span(s) {:?} are still entered: the guest dropped their last handle while they were entered, and the receiver forgot that it had entered them [last-handle-dropped-while-entered]", sys.orphaned);
+                            } else {
+                                fail!("C04 after drop the host span stack is {:?}, it was {:?} before this receiver processed anything ({} enters outstanding)", stack_now, sys.lifetime_stack, entered_now);
+                            }
                         }
+                        sys.orphaned.clear();
                         let mut closes: Vec<u64> = sys.host.state.lock().unwrap().closes[closes_before..].to_vec();
                         closes.sort_unstable();
                         let mut want: Vec<u64> = sys.born.iter().filter(|g| sys.spec.alive.contains_key(g)).filter_map(|g| sys.has_host.get(g).copied()).collect();
